@@ -116,12 +116,19 @@ func Assume(c bool) {
 	}
 }
 
+// Assert natively records the failure and continues, so that a later failing assertion of the same
+// run is visible too; the replay driver exits non-zero at the end (Failed).
 func Assert(c bool, label string) {
 	if !c {
 		fmt.Printf("SYM-ASSERT-FAILED label=%q\n", label)
-		os.Exit(17)
+		failed = true
 	}
 }
+
+var failed bool
+
+// Failed reports whether any assertion failed (native replay only).
+func Failed() bool { return failed }
 
 // NoNaNInputs: every Float64Bits input created from now on is assumed not to be NaN.
 func NoNaNInputs()                {}
